@@ -94,6 +94,8 @@ class Shape(object):
     # ---- rows
     def cells(self, row, number):
         """Concrete cells of abstract row `row` that is raw row `number`."""
+        if row["w"] == "empty":
+            return []  # a line without any content
         cells = []
         for index, cls in enumerate(row["c"]):
             value = row["v"][index]
@@ -253,6 +255,8 @@ def item_of(shape, item, messages=None):
 
     if shape.single:
         return ["row", list(item)]
+    if list(item) == []:
+        return ["row", "empty"]  # (a row without items carries no row id; it is matched by its position among the items)
     try:
         return ["row", number(item[-1])]
     except (ValueError, IndexError, TypeError, AttributeError):
@@ -504,6 +508,11 @@ def normalise_expected(shape, run, expected):
     out = [list(item) for item in expected["out"]]
     if shape.single:
         out = [item if item[0] == "err" else ["row", shape.cells(run["ds"]["rows"][item[1] - 1], item[1])] for item in out]
+    if not shape.single:
+        for item in out:
+            if item[0] == "row" and isinstance(item[1], int) and 0 < item[1] <= len(run["ds"]["rows"]) \
+                    and run["ds"]["rows"][item[1] - 1]["w"] == "empty":
+                item[1] = "empty"
     if run["op"] == "write":
         for item in out:
             if item[0] == "err":
